@@ -80,6 +80,7 @@ const (
 type segment struct {
 	data []byte
 	fin  bool
+	gone bool // AF_UNIX: the sender's endpoint was closed (arrives in order, behind its data)
 }
 
 type dgram struct {
@@ -126,6 +127,7 @@ type Sock struct {
 	closed   bool      // endpoint closed
 	nospace  bool      // a write hit a full buffer; a write-space wake-up is owed once there is room
 	owed     bool      // a write-space wake-up owed after an injected short write
+	peerGone bool      // AF_UNIX: the peer endpoint was closed (both directions shut down: EPOLLHUP, writes fail with EPIPE)
 	sndCap   int
 	lowat    int
 	refs     int // descriptors referring to this socket
@@ -640,7 +642,7 @@ func (s *Sock) level() uint32 {
 	if s.finRcvd || s.rst {
 		ev |= EPOLLRDHUP
 	}
-	if s.rst || (s.finRcvd && s.wshut) {
+	if s.rst || (s.finRcvd && s.wshut) || s.peerGone {
 		ev |= EPOLLHUP
 	}
 	if s.errOnce != 0 {
@@ -655,9 +657,25 @@ func (s *Sock) level() uint32 {
 	return ev
 }
 
-// wake marks an edge on every epoll registration of the socket.
+// wake puts the epoll registrations of the socket on their ready lists. Linux wake-ups carry a
+// key: data arrival is keyed EPOLLIN (sock_def_readable), write space EPOLLOUT
+// (sk_stream_write_space, unix_write_space), and ep_poll_callback drops a keyed wake-up whose
+// key is not in the registration's interest mask; state changes (FIN, reset, connect completion,
+// hang-up) are not keyed and always pass. Found by the conformance suite (harness/conform): an
+// edge-triggered registration for EPOLLIN alone was reported again, with the still unread data,
+// when the peer made write space.
 func (k *Kernel) wake(s *Sock, why string) {
+	var key uint32
+	switch why {
+	case "data", "dgram", "accept":
+		key = EPOLLIN
+	case "wspace":
+		key = EPOLLOUT
+	}
 	for _, it := range s.watch {
+		if key != 0 && it.events&key == 0 {
+			continue
+		}
 		it.edge = true
 	}
 }
@@ -686,8 +704,15 @@ func (s *Sock) send(b []byte, allowShort bool) (int, std.Errno) {
 		return 0, std.ENOTCONN
 	}
 	p := s.peer
+	if s.peerGone {
+		// AF_UNIX: the peer's close shut down both directions of the survivor; a write fails
+		// with EPIPE and nothing else changes (unix_stream_sendmsg)
+		return 0, std.EPIPE
+	}
 	if p == nil || p.closed {
-		// the peer is gone: the first write is accepted and provokes a reset
+		// TCP: the peer is gone and answers with a reset. (Linux accepts this first write
+		// and reports the reset afterwards; the model fails it at once - DESIGN.md 13,
+		// conformance suite, deliberate abstractions.)
 		s.reset()
 		return 0, std.EPIPE
 	}
@@ -805,6 +830,10 @@ func (s *Sock) ShutdownWrite() {
 	}
 	s.wshut = true
 	s.sendFin()
+	if s.finRcvd {
+		// both directions are shut down now: the state change wakes our own pollers (EPOLLHUP)
+		s.k.wake(s, "hup")
+	}
 }
 
 func (s *Sock) sendFin() {
@@ -851,6 +880,21 @@ func (s *Sock) CloseEnd() {
 	if !s.wshut {
 		s.wshut = true
 		s.sendFin()
+	}
+	if s.Typ == UNIX {
+		// unix_release_sock: the survivor's sk_shutdown becomes SHUTDOWN_MASK and its
+		// sk_state_change runs, also when a FIN had been sent before (found by the
+		// conformance suite: EPOLLHUP comes with the peer's close, not only with a reset).
+		// It takes effect behind whatever the model still has in flight towards the survivor.
+		if len(p.inflight) == 0 {
+			p.peerGone = true
+			k.wake(p, "hup")
+		} else if last := &p.inflight[len(p.inflight)-1]; last.fin {
+			last.gone = true
+		} else {
+			p.inflight = append(p.inflight, segment{gone: true})
+			k.kick()
+		}
 	}
 }
 
@@ -917,9 +961,14 @@ func (k *Kernel) step() {
 		k.completeConnect(s)
 	case len(s.inflight) > 0:
 		sg := s.inflight[0]
-		if sg.fin {
+		if sg.fin || sg.gone {
 			s.inflight = s.inflight[1:]
-			s.finRcvd = true
+			if sg.fin {
+				s.finRcvd = true
+			}
+			if sg.gone {
+				s.peerGone = true
+			}
 			simrt.Ev("fin-arrives", int64(s.ID))
 			k.wake(s, "fin")
 			return
